@@ -99,6 +99,7 @@ type World struct {
 	Conn *MemConn
 
 	Handler *grpctunnel.TunnelServiceHandler
+	Inner   *grpctunnel.TunnelServiceHandler // tunnel service exposed over a reverse tunnel (nested-fr / nested-rr)
 	Stub    tunnelpb.TunnelServiceClient
 
 	// outer tunnel (forward tunnels and the outer leg of nested ones)
@@ -322,13 +323,22 @@ func (w *World) Open(openMD metadata.MD) error {
 			}
 			w.Ch, w.TCh = all[0], all[0]
 		}
-	case "reverse":
+	case "reverse", "nested-fr", "nested-rr":
 		// network server: handler is the tunnel client end
 		w.Handler = w.NewHandler(w.Cfg.ClientNoFC, AffinityFromMD)
 		w.Stub = w.carrierUp(w.Handler.Service())
 		rs := grpctunnel.NewReverseTunnelServer(w.Stub, w.serverOpts()...)
 		desc, impl := NewSvc(w.Env, "rev-0")
 		rs.RegisterService(desc, impl)
+		// for nesting inside the reverse tunnel the reverse-tunnel server also exposes a tunnel service
+		var inner *grpctunnel.TunnelServiceHandler
+		if w.Cfg.Dir != "reverse" {
+			inner = grpctunnel.NewTunnelServiceHandler(grpctunnel.TunnelServiceHandlerOptions{DisableFlowControl: w.Cfg.ServerNoFC, AffinityKey: AffinityFromMD})
+			d2, i2 := NewSvc(w.Env, "inner-fwd")
+			inner.RegisterService(d2, i2)
+			tunnelpb.RegisterTunnelServiceServer(rs, inner.Service())
+			w.Inner = inner
+		}
 		w.startServe(rs, ctx, "rev-0")
 		w.awaitRegistered(1)
 		all := w.Handler.AllReverseTunnels()
@@ -337,6 +347,34 @@ func (w *World) Open(openMD metadata.MD) error {
 			return fmt.Errorf("reverse tunnel not registered (%d), serve returned=%v err=%v", len(all), sr.Returned, sr.Err)
 		}
 		w.Ch, w.TCh = all[0], all[0]
+		w.Outer = all[0]
+		switch w.Cfg.Dir {
+		case "nested-fr":
+			// a forward tunnel opened over the reverse tunnel (from the network server's side)
+			ich, err := grpctunnel.NewChannel(tunnelpb.NewTunnelServiceClient(all[0]), w.clientOpts()...).Start(ctx)
+			if err != nil {
+				return fmt.Errorf("nested start over reverse tunnel: %w", err)
+			}
+			w.Ch, w.TCh = ich, ich
+		case "nested-rr":
+			// a reverse tunnel opened over the reverse tunnel: its serving end lives on the network server's side
+			irs := grpctunnel.NewReverseTunnelServer(tunnelpb.NewTunnelServiceClient(all[0]), w.serverOpts()...)
+			d3, i3 := NewSvc(w.Env, "nested-rev")
+			irs.RegisterService(d3, i3)
+			w.startServe(irs, ctx, "nested-rev")
+			if !w.Free {
+				w.Advance(10 * time.Millisecond)
+			} else {
+				for i := 0; i < 2000 && len(inner.AllReverseTunnels()) < 1; i++ {
+					time.Sleep(5 * time.Millisecond)
+				}
+			}
+			in := inner.AllReverseTunnels()
+			if len(in) != 1 {
+				return fmt.Errorf("nested reverse tunnel over reverse tunnel not registered (%d)", len(in))
+			}
+			w.Ch, w.TCh = in[0], in[0]
+		}
 	default:
 		return fmt.Errorf("unknown dir %q", w.Cfg.Dir)
 	}
